@@ -147,11 +147,17 @@ def run_case(edges, res, margin, obs, radius, noise, scale=1):
             if coll:
                 mapOnNetwork(TrackCollection([mk_decoy(), tr]), net, gps_noise=noise, search_radius=radius, verbose=False)
             else:
-                mapOnNetwork(tr, net, gps_noise=noise, search_radius=radius, verbose=False)
                 if (len(obs) + len(edges)) % 4 == 0:
-                    # history: the same track object is matched a second time (its hmm_* features exist already)
-                    mapOnNetwork(tr, net, gps_noise=noise, search_radius=radius, verbose=False)
-                    e["cfg"]["entry"] = "track, matched twice"
+                    # history: the same track object was matched BEFORE, with a search radius four times as large (its hmm_*
+                    # features exist already and hold states that are too far away for the radius of the judged call)
+                    try:
+                        mapOnNetwork(tr, net, gps_noise=noise, search_radius=4 * radius, verbose=False)
+                        e["cfg"]["entry"] = "track, matched before with a larger radius"
+                    except (Exception, SystemExit):
+                        tr = Track([Obs(ENUCoords(float(p[0]) * scale, float(p[1]) * scale, 0.0), ObsTime.readUnixTime(t0 + 10 * k)) for k, p in enumerate(obs)])
+                        ids.clear()
+                        e["pre"] = snap()
+                mapOnNetwork(tr, net, gps_noise=noise, search_radius=radius, verbose=False)
             inf = [tr["hmm_inference", k] for k in range(tr.size())]
         e["states"] = [abstract_state(s, edges, scale) for s in inf]
         # the candidate lists the decoder chose from (module global of tracklib.algo.mapping)
